@@ -63,6 +63,8 @@ def install_internal_hook() -> None:
                           "func": inner.name if inner else None,
                           "file": os.path.basename(inner.filename) if inner else None,
                           "lineno": inner.lineno if inner else None,
+                          "src_file": a[0] if a and isinstance(a[0], str) else kw.get("file"),
+                          "src_line": a[1] if len(a) > 1 and isinstance(a[1], int) else kw.get("line"),
                           "tb": "".join(traceback.format_tb(err.__traceback__)[-6:])[-2500:]})
         return orig_internal(err, *a, **kw)
 
